@@ -970,6 +970,10 @@ impl Router {
                             ackslog.unsuback(unsuback);
                             self.scheduler.untrack(id, filter);
                             self.datalog.remove_waiters_for_id(id, filter);
+                            // a publish earlier in this batch may already have woken the parked
+                            // request; it must not be tracked again at the end of the batch
+                            self.notifications
+                                .retain(|(cid, request)| !(*cid == id && request.filter == *filter));
                             force_ack = true;
                         }
                     }
